@@ -88,6 +88,7 @@ PROPS = {
             det("sweep", "^TestC11Sweep$"),
             rap("write_short", "^TestC11WriteShort$", 5000, 40000, 1, 8),
             rap("stream", "^TestC11Stream$", 5000, 40000, 2, 8),
+            {"name": "fuzz_packets", "fuzz": "FuzzC11", "thorough": {"fuzztime": "120s", "timeout": 600}},
         ],
     },
     "C12": {
@@ -277,6 +278,7 @@ PROPS = {
             rap("truncation", "^TestC03Truncation$", 20, 150, 6, 16),
             {"name": "fuzz_bytes", "fuzz": "FuzzC03", "thorough": {"fuzztime": "150s", "timeout": 600}},
             {"name": "fuzz_sections", "fuzz": "FuzzC03Sections", "thorough": {"fuzztime": "120s", "timeout": 600}},
+            {"name": "fuzz_structured", "fuzz": "FuzzC03Structured", "thorough": {"fuzztime": "120s", "timeout": 600}},
         ],
     },
     "C06": {
